@@ -211,8 +211,8 @@ META = {
         "technique": "Coq case analysis of a decision-tree model + single-defect token enumeration against the real middleware",
     },
     "C20": {
-        "text": "Theorems C20_reload_equals_restart_partial (for any state left by any history, an accepted reload puts in effect exactly what a fresh start computes from the same file and environment, under the guard of the recorded stale-scalar finding), C20_failed_edit_keeps_config, C20_refuted_stale_scalar (full statement false on the current code: witness), and refutations of the d802d19 behaviour repaired by fix commits 90f22df and f91d55c. Tie: random edit histories (services added/removed/reordered/duplicated/omitted, roles and keys added/removed/omitted, invalid JSON, wrong types, invalid durations, BRAMBLE_SERVICE_LIST) with a synchronous reload after each edit; Config.Services, ExecutableSchema.Services, the JWT role table and key ids are compared with the model and with a fresh start on the same file.",
-        "note": "Found by this check and recorded: an invalid poll-interval from a rejected edit poisons later valid edits (KF-stale-config-scalar).",
+        "text": "Theorems C20_reload_equals_restart_partial (for any state left by any history, an accepted reload federates, as a set and without duplicates, exactly the services a fresh start computes from the same files and environment - configured services, BRAMBLE_SERVICE_LIST and the services contributed by the plugins the files enable - with the same roles and key ids, under the guard of the recorded stale-scalar finding), C20_failed_edit_keeps_config, C20_accepted_reload_forgets_history_partial (a refused edit does not stop a later valid one), C20_refuted_stale_scalar (full statement false on the current code: witness), and refutations of the d802d19 behaviour repaired by fix commits 90f22df, f91d55c and 1ea31d2. Tie: random edit histories (services added/removed/reordered/duplicated/omitted, roles and keys added/removed/omitted, two service-contributing plugins enabled or not, invalid JSON, wrong types, invalid durations, BRAMBLE_SERVICE_LIST) with a synchronous reload after each edit; Config.Services, ExecutableSchema.Services, Config.plugins, the JWT role table and key ids are compared with the model and with a fresh start (GetConfig + Init) on the same file.",
+        "note": "Found by this check and recorded: an invalid poll-interval from a rejected edit poisons later valid edits (KF-stale-config-scalar). Found by this check and repaired: reload federated the services of the previous load's plugins (fix 1ea31d2).",
         "technique": "Coq state-machine model with proofs and refutation witnesses + differential correspondence on scripted edit histories",
     },
     "C14": {
